@@ -956,15 +956,6 @@ Section Core.
   Proof. unfold lookup_default_value. destruct (assoc _ _); [apply pres_protect|apply pres_default_value]. Qed.
   Hint Resolve pres_run_factory pres_default_value pres_lookup_default_value : pr.
 
-  Lemma pres_delattr l a force skip : pres (delattr_ ct rec l a force skip).
-  Proof.
-    unfold delattr_. pstep. pstep. apply pres_bind; [pgo|]. intros ?.
-    destruct (if force then None else lookup_attr a1 a) as [sp|].
-    - pstep. pstep.
-      + apply pres_bind; [pprim|]. intros ?. apply pres_bind; [pgo; pprim|]. intros; pstep.
-      + pprim.
-    - apply pres_bind; [pprim|]. intros ?. apply pres_bind; [pgo; pprim|]. intros; pstep.
-  Qed.
 
   Lemma pres_instantiate_ty t : pres (instantiate_ty rec t).
   Proof. unfold instantiate_ty. destruct t; pgo. apply Hrec. Qed.
@@ -1139,6 +1130,9 @@ Section Core.
   Lemma pres_prepare_attr_value sp inst value attrs : pres (prepare_attr_value ct rec sp inst value attrs).
   Proof. unfold prepare_attr_value. pauto. Qed.
   Hint Resolve pres_prepare_attr_value : pr.
+
+  Lemma pres_delattr l a force skip : pres (delattr_ ct rec l a force skip).
+  Proof. unfold delattr_. pauto. Qed.
 
   Lemma pres_setattr l a v force skip : pres (setattr_ ct rec l a v force skip).
   Proof. unfold setattr_. pauto. Qed.
